@@ -945,6 +945,8 @@ class C06(core.Check):
                             case={'k': 'method-dispatcher-head', 'path': path, 'headers': hdrs},
                             observed={'get': gv, 'head': hv, 'get_bytes': len(g['body']), 'head_bytes': len(h['body'])}))
                         return out
+            if not out:
+                out += self.short_read_probe(app_factory=wsgi.make_app)
         finally:
             import logging
             try:
@@ -953,6 +955,59 @@ class C06(core.Check):
                 pass
             for lg in (app.log.error_log, app.log.access_log):
                 logging.Logger.manager.loggerDict.pop(lg.name, None)
+        return out
+
+    def short_read_probe(self, app_factory):
+        """static.serve_fileobj over a file object whose read(n) returns fewer than n bytes (a raw stream): whole-file and
+        ranged GETs must announce exactly the bytes they deliver.  Oracle only."""
+        import cherrypy
+        import tempfile
+        from cherrypy.lib import static
+        data = bytes(range(256)) * 3
+        fd, path = tempfile.mkstemp(prefix='c06short')
+        os.write(fd, data)
+        os.close(fd)
+
+        class ShortFile(object):
+            def __init__(self, path):
+                self.f = open(path, 'rb', buffering=0)
+
+            def read(self, n=-1):
+                return self.f.read(7 if n is None or n < 0 or n > 7 else n)
+
+            def __getattr__(self, name):
+                return getattr(self.f, name)
+
+        class Root:
+            @cherrypy.expose
+            def short(self):
+                return static.serve_fileobj(ShortFile(path), content_type='application/octet-stream')
+        app = app_factory(Root(), {'/': {'tools.trailing_slash.on': False, 'request.show_tracebacks': False}})
+        out = []
+        try:
+            for rng in (None, 'bytes=10-59', 'bytes=-100', 'bytes=700-', 'bytes=0-0'):
+                r = wsgi.call(app, 'GET', '/short', [] if rng is None else [('Range', rng)])
+                cl = wsgi.headers_all(r, 'Content-Length')
+                self.count('short-reading file object, Range %s' % rng)
+                if r['escaped'] or r['problems'] or r['status'] not in (200, 206):
+                    continue
+                if cl != [str(len(r['body']))]:
+                    out.append(core.Violation(
+                        'length-mismatch:short-reads',
+                        'serve_fileobj over a file object that returns short reads, Range %r: status %s, Content-Length '
+                        '%r, %d body bytes delivered' % (rng, r['status'], cl, len(r['body'])),
+                        case={'k': 'short-read-fileobj', 'range': rng},
+                        observed={'status': r['status'], 'content_length': cl, 'bytes': len(r['body'])}))
+                    break
+        finally:
+            import logging
+            try:
+                cherrypy.engine.unsubscribe('graceful', app.log.reopen_files)
+            except Exception:
+                pass
+            for lg in (app.log.error_log, app.log.access_log):
+                logging.Logger.manager.loggerDict.pop(lg.name, None)
+            os.unlink(path)
         return out
 
     def cases(self):
